@@ -126,15 +126,18 @@ def scenario(draw, n_contests=(1, 2), kinds=None, audit_types=("CARD_COMPARISON"
     us = draw(st.booleans()) if use_style is None else use_style
     ncon = draw(st.integers(*n_contests))
     specs = {}
+    # contest identifiers are labels too: 'Council, Ward 3' is one contest, 'Council' and 'Ward 3' are two others
+    names = draw(st.sampled_from([["K0", "K1", "K2", "K3"]] * 4 + [["Council, Ward 3", "Council", "Ward 3", "K3"]]))
     for i in range(ncon):
-        specs[f"K{i}"] = draw(contest_spec(kind=(draw(st.sampled_from(kinds)) if kinds else None), audit_types=audit_types))
+        specs[names[i]] = draw(contest_spec(kind=(draw(st.sampled_from(kinds)) if kinds else None), audit_types=audit_types))
     extra = "X"  # an un-audited contest that only varies card styles
     n = draw(st.integers(*n_cards))
     any_one = any(s["audit_type"] == "ONEAUDIT" for s in specs.values())
     # batch labels are arbitrary objects: strings, integers (a batch may well be numbered 0) or an empty string
     # (... or happen to coincide with a card identifier: labels and identifiers are different name spaces)
-    labels = draw(st.sampled_from([["p1", "p2", "p3"], ["p1", "p2", "p3"], [0, 1, 2], ["", "a", "b"], ["1-0-0", "1-0-1", "p3"]]))
-    pooled = sorted(draw(st.sets(st.sampled_from(labels)))) if (with_pools and any_one) else []
+    labels = draw(st.sampled_from([["p1", "p2", "p3"], ["p1", "p2", "p3"], [0, 1, 2], ["", "a", "b"], ["1-0-0", "1-0-1", "p3"],
+                                   [1, "1", "p3"]]))   # (1 and '1' are different labels)
+    pooled = sorted(draw(st.sets(st.sampled_from(labels))), key=repr) if (with_pools and any_one) else []
     cards = []
     for i in range(n):
         ph = with_phantoms and draw(st.integers(0, 9)) == 0
@@ -150,7 +153,9 @@ def scenario(draw, n_contests=(1, 2), kinds=None, audit_types=("CARD_COMPARISON"
         if draw(st.integers(0, 3)) == 0:
             votes[extra] = {}
         tp = draw(st.sampled_from(labels)) if with_pools else None
-        cards.append({"id": f"1-{i // 7}-{i}", "votes": votes, "phantom": ph, "tally_pool": tp, "pool": tp in pooled})
+        # (a phantom may carry a pooled batch's label without being pooled itself: make_phantoms(tally_pool=..., pool=False))
+        pool = (tp in pooled) and not (ph and draw(st.booleans()))
+        cards.append({"id": f"1-{i // 7}-{i}", "votes": votes, "phantom": ph, "tally_pool": tp, "pool": pool})
     mvrs = []
     for i, c in enumerate(cards):
         mode = draw(st.sampled_from(list(mvr_modes)))
